@@ -11,6 +11,16 @@ CHECKS = {
          "Every expression DAG up to the node bound (every opcode/operand form, families that force spills) is compiled at every instantiated register budget and executed by the real point and many-point interpreters; each output is compared bit-for-bit with an independent operation-by-operation evaluation of the graph the Context holds. Exhaustive within the stated bounds, no sampling.",
          "Trusted: ref32 (Rust std f32 ops), the DAG enumerator; bounded to <=3 (quick) / <=5 (thorough) operation nodes plus parametric families up to width 24; budgets 3..12,16,255.",
          "DESIGN.md §4 C01"),
+ "C02": ("model_checking",
+         "bounded-exhaustive enumeration of programs x inputs x slice lengths; x86_64 JIT vs interpreter per node, guard-paged input slices",
+         "Every opcode/operand form over the special-value alphabet squared, every DAG up to the node bound and spill-forcing families (libm/atan2/mod call-outs among live registers, up to 40 variables / 79 outputs) are compiled by the JIT and compared per exported node with the interpreter: point evaluator at every grid point, SIMD evaluator for every slice length 0..=35 with inputs placed against PROT_NONE guard pages on either side (an out-of-slice access faults and is attributed to the case by the crash journal).",
+         "Trusted: per-node comparison logic (min/max-of-zeros exception applied only there), guard-page granularity; x86_64 only.",
+         "DESIGN.md §4 C02"),
+ "C04": ("model_checking",
+         "bounded-exhaustive enumeration of choice programs x boxes x trace sources x nested simplification histories on the real simplifier (VM budgets and JIT)",
+         "For every choice program up to the bound and every box of a 100-box dyadic grid, traces from the interval evaluator (box) and the point evaluator (each sample point) of VM<255>, VM<3> and JIT are fed to simplify; every resulting child, and every child of a child over nested sub-boxes up to the nesting bound, is compared bit-for-bit with the original function on the traced domain under point, float-slice and grad-slice evaluators; simplification into other budgets (3, 4, 12) is included; simplify must never fail.",
+         "Trusted: dyadic alphabets make interval decisions exact; child-vs-parent comparison under the same evaluator.",
+         "DESIGN.md §4 C04"),
  "C15": ("model_checking",
          "bounded-exhaustive enumeration of programs x budgets; bytecode executed by a documentation-only interpreter and compared with the VM",
          "Every program of the C01 sets is serialised with Bytecode::new at budgets that force memory traffic and executed by an interpreter written only from the format documentation (opcode numbers by name from iter_ops); outputs must equal the VM's bit-for-bit and every structural promise (markers, word count, register/memory bounds, reserved register) is checked on every bytecode.",
